@@ -82,7 +82,7 @@ def plan(prop, tier):
         P.append(("ownership tokens, no panic", "MC_Tokens.tla", tokens_consts(q, False), ["TypeOK", "NoDoubleDrop", "NoBadDrop", "NoLeakAtEnd"], []))
     elif prop == "C14":
         par("protocol with a panicking closure", ("collect_vec", "count", "find"), ["P_PanicPropagates", "P_AtMostOnce", "P_ThreadBound"],
-            fans="Fans_012", crashes="CrashStage1", NN_=(3 if q else 4), nts_=((2, 3) if q else (2, 3, 4)))
+            fans="Fans_012", crashes="CrashStage1", NN_=(3 if q else 4), nts_=((1, 2, 3) if q else (1, 2, 3, 4)))
         P.append(("ownership tokens with a panicking closure", "MC_Tokens.tla", tokens_consts(q, True), ["TypeOK", "NoDoubleDrop", "NoBadDrop", "PanicPropagates"], ["Finishes"]))
     elif prop == "C15":
         P.append(("runner settings arithmetic", "MC_Settings.tla", {"MaxLen": "= 20" if q else "= 72", "MaxT": "= 9" if q else "= 17"}, ["ChunkPositive", "ThreadsPositive", "NextChunkSane", "MinChunkCoversInput", "AutoChunkIsPowerOfTwo"], []))
@@ -293,14 +293,20 @@ def conformance(prop, tier, traces, work):
                 conf.add((tf, int(mm.group(1))))
             mm = re.match(r'^<<"REJECT", (\d+), (\d+), "(\w+)">>$', line)
             if mm:
-                rej.append({"run": int(mm.group(1)), "line": int(mm.group(2)), "event": mm.group(3)})
+                rej.append({"run": int(mm.group(1)), "line": int(mm.group(2)), "event": mm.group(3), "tf": tf})
             if line.startswith('<<"FULL-CONSUMED"'):
                 consumed += 1
-    rej_u = {(r["run"], r["line"]): r for r in rej}
+    # (a run is accepted if some branch of the trace specification accepts it)
+    accepted_runs = {(tf, rid) for tf, rid in conf}
+    rej_u = {}
+    for r in rej:
+        key = (r["tf"], r["run"])
+        if key not in accepted_runs and (key not in rej_u or r["line"] > rej_u[key]["line"]):
+            rej_u[key] = {k: v for k, v in r.items() if k != "tf"}     # the branch that got furthest
     return {"strict_conformance": {"runs_accepted_by_ParRun": len(conf), "runs_rejected": len(rej_u),
                                    "first_rejections": list(rej_u.values())[:5], "files_consumed": consumed,
                                    "files": len(outs), "wall_s": round(time.time() - t0, 2),
-                                   "note": "applies to scheduled (linearised) runs, including chains with eager (materialising) sites, which are followed run by run; a rejection is spec-maintenance information, never a verdict"}}
+                                   "note": "applies to scheduled (linearised) runs and to free-running programs that are sequential in every group (one thread), including chains with eager (materialising) sites, which are followed run by run; a rejection is spec-maintenance information, never a verdict"}}
 
 
 # ------------------------------------------------------------------ showing that the binding binds
@@ -323,12 +329,15 @@ def selftest(prop, traces, work):
     """Corrupts recorded traces and requires the TLA+ side to notice:
     (1) a terminal result altered -> the property's result clause (if it has one) must fire;
     (2) the position of a first-closure call altered in a scheduled run -> TraceFull must reject
-        that run at that line;  (3) a worker-end event deleted -> TraceFull must reject."""
+        that run at that line;  (3) a worker-end event deleted -> TraceFull must reject;
+    (4) a closure call deleted from a sequential run -> TraceFull must reject that run (the
+        depth-first call order of sequential mode is bound, not only the multiset)."""
     res = {}
     result_clauses = {"C01": "collect", "C02": "find", "C03": "reduce", "C04": "count", "C06": "collect_into", "C07": "collect_x"}
     # (1)
     done1 = prop not in result_clauses
     done2 = done3 = False
+    done4, tries4, seen = False, 0, 0
     tries2 = 0       # (a tree whose runs no longer conform to ParRun has no accepted run to corrupt: give up after a few)
     for tf in traces:
         for rid, lines in _run_events(tf):
@@ -349,6 +358,25 @@ def selftest(prop, traces, work):
                 v, st = monitor([pth], CLAUSES[prop], work, par=1)
                 res["altered_result_flagged"] = len(v) > 0
                 done1 = True
+            seen += 1
+            if seen > 400 and not done4:
+                done4 = True       # no sequential run among the first programs of this tier: (4) does not apply
+            scalls = [i for i, e in enumerate(evs) if e["e"] == "call" and e.get("a", 0) == 0 and e["s"] != 97]
+            if (not done4 and tries4 < 6 and prog["mode"] == "free" and prog["p"]["cs"] < 0 and 3 <= len(scalls) <= 400
+                    and not any(e["e"] in ("run_begin", "trunc") for e in evs)):
+                tries4 += 1
+                pth0 = os.path.join(work, "selftest4a.ndjson")
+                open(pth0, "w").write("".join(lines))
+                c0 = conformance(prop, "quick", [pth0], work)["strict_conformance"]
+                if c0["runs_accepted_by_ParRun"] == 1:
+                    j = scalls[len(scalls) // 2]
+                    pth = os.path.join(work, "selftest4.ndjson")
+                    open(pth, "w").write("".join(lines[:j] + lines[j + 1:]))
+                    c1 = conformance(prop, "quick", [pth], work)["strict_conformance"]
+                    res["deleted_sequential_call_rejected"] = c1["runs_rejected"] == 1 and c1["runs_accepted_by_ParRun"] == 0
+                    done4 = True
+                if tries4 >= 6:
+                    done4 = True
             sched = prog["mode"] != "free" and prog["p"]["cs"] < 0
             calls = [i for i, e in enumerate(evs) if e["e"] == "call" and e.get("a", 0) >= 1 and e["s"] == 1]
             if sched and not done2 and tries2 < 6 and len(calls) >= 2 and any(e["e"] == "end" and e["dstep"] == -1 for e in evs):
@@ -375,7 +403,7 @@ def selftest(prop, traces, work):
                         c2 = conformance(prop, "quick", [pth], work)["strict_conformance"]
                         res["deleted_worker_end_rejected"] = c2["runs_rejected"] == 1
                         done3 = True
-            if done1 and ((done2 and done3) or tries2 >= 6):
+            if done1 and done4 and ((done2 and done3) or tries2 >= 6):
                 if not done2:
                     res["position_and_event_corruption"] = "skipped: none of the first scheduled runs conforms to ParRun on this tree"
                 return res
